@@ -539,6 +539,10 @@ class FiniteAutomaton:
                                             transition["label"],
                                             s_to)
         for node in graph.nodes:
+            if "is_start" in graph.nodes[node] or \
+                    "is_final" in graph.nodes[node]:
+                # Also a state without any transition is a state
+                enfa._states.add(to_state(node))
             if graph.nodes[node].get("is_start", False):
                 enfa.add_start_state(node)
             if graph.nodes[node].get("is_final", False):
